@@ -112,6 +112,33 @@ def scenario(mode, selected, cut, ending):
     bad = {}
     ep = Endpoint(mode)
     try:
+        if ending == "connect-and-close-at-once":
+            # the peer closes before the endpoint has finished handling 'connected' (an application handler of that event
+            # takes a moment): the link loss is handled while the accept is still in progress - several times in a row,
+            # then a peer that stays must be served (D45)
+            ep.proto.events.connected += lambda _d: time.sleep(0.05)
+            for _ in range(6):
+                s0 = ep.peer_connect()
+                if s0 is None:
+                    break
+                s0.close()
+                time.sleep(0.02)
+            settled = H.wait_until(lambda: ep.state() == "NOT_CONNECTED", 4.0)
+            if mode == "passive" and not settled:
+                # (an active endpoint connects again after T5 by itself, its state is judged by the clauses below)
+                bad["reports-not-connected"] = f"all peers have closed but the endpoint reports {ep.state()}"
+            time.sleep(0.3)
+            sock2 = ep.peer_connect()
+            if sock2 is None or not H.wait_until(lambda: ep.state() in ("CONNECTED_NOT_SELECTED", "CONNECTED_SELECTED"), 4.0):
+                bad["accepts-new-connection"] = f"after peers that connected and closed at once no new connection is accepted (state {ep.state()})"
+            elif not ep.select(sock2, 0x9191):
+                bad["selects-again"] = f"select failed after peers that connected and closed at once (state {ep.state()})"
+            ok, _ = with_timeout(ep.proto.disable, 8.0)
+            if not ok:
+                bad["disable-returns"] = f"disable() did not return within 8 s (after {ending}, state {ep.state()})"
+            if sock2 is not None:
+                sock2.close()
+            return bad
         sock = ep.peer_connect()
         if sock is None or not H.wait_until(lambda: ep.state() != "NOT_CONNECTED", 3.0):
             return {"setup": "no connection"}
@@ -253,6 +280,8 @@ def bnd_cuts(tier, seed):
                     jobs.append((mode, selected, cut, "reconnect-during-slow-disconnect-handler"))
                 if cut in (0, 14):
                     jobs.append((mode, selected, cut, "burst-then-close"))
+                if not selected and cut == 0:
+                    jobs.append((mode, selected, cut, "connect-and-close-at-once"))
     n_eval = 0
     distinct = set()
     suspects = []
